@@ -135,6 +135,18 @@ theorem C01_joint_hastings (bs : List Block) (hok : ∀ b ∈ bs, b.ok) :
   refine ⟨by rw [h1, h2], ?_⟩
   rw [h1, h2, Real.exp_sub, Real.exp_log pa, Real.exp_log pb]
 
+/-- The product structure that `C01_joint_hastings` presupposes is what the model's joint jump
+    does: over disjoint parameter blocks (`JointProposal.__init__` rejects repeated parameters),
+    the block of a constituent that is due is exactly what its own `_jump` returned, and every
+    parameter outside the blocks of the constituents that are due keeps its current value. -/
+theorem C01_joint_jump_is_blockwise (zs : List (PropSt × List Val)) (pos : List Val)
+    (hok : BlocksOK pos.length zs) :
+    (∀ z ∈ zs, z.1.callJump = true → ∀ k (hk : k < z.1.cfg.params.length),
+      (jointJump pos (zs.map (·.1)) (zs.map (·.2)))[z.1.cfg.params[k]]? = z.2[k]?) ∧
+    (∀ j, (∀ z ∈ zs, z.1.callJump = true → j ∉ z.1.cfg.params) →
+      (jointJump pos (zs.map (·.1)) (zs.map (·.2)))[j]? = pos[j]?) :=
+  ⟨jointJump_block zs pos hok, fun j h => jointJump_untouched zs pos j h⟩
+
 /-- The rational form: `hastings` is the sum of `rev − fwd` over the constituents that are due. -/
 theorem C01_joint_hastings_rat (ps : List PropSt) (rev fwd : List Rat) (h : SymOK ps rev fwd) :
     hastings ps rev fwd = jointLogRatio ps rev fwd :=
@@ -272,6 +284,12 @@ example : ∀ b ∈ blocks0, b.ok := by
     · simp
     · simp
     · simp [PropSt.fresh, cfgAsym]
+
+/-- `C01_joint_jump_is_blockwise`: two constituents over the blocks {0} and {1} of a
+    three-parameter position. -/
+example : BlocksOK [Val.num 1, Val.num 2, Val.num 3].length
+    [(PropSt.fresh cfgSym, [Val.num 7]), (PropSt.fresh cfgAsym, [Val.num 9])] := by
+  refine ⟨?_, ?_, ?_, ?_⟩ <;> simp [PropSt.fresh, cfgSym, cfgAsym]
 
 /-- `C01_detailed_balance`, `C01_stationary`, `C01_kernel_stochastic`: three states, a prior hole,
     a non-symmetric row-stochastic proposal kernel with a zero entry. -/
